@@ -209,10 +209,10 @@ func (g *Gen) leafContexts() {
 func (g *Gen) likeSequences() {
 	for rep := 0; rep < g.pick(12, 120); rep++ {
 		g.begin("like sequences")
-		vals := []*BS{bsp("abc"), bsp("ABC"), bsp("aXc"), nil, bsp("xabcx"), bsp("Abc")}
+		vals := []*BS{bsp("abc"), bsp("ABC"), bsp("aXc"), nil, bsp("xabcx"), bsp("Abc"), bsp("ſ"), bsp("ı"), bsp("ɐb"), bsp("s"), bsp("I")}
 		f := g.do(Step{Op: "New", Recv: -1, HasOrder: true, ColOrder: bsList([]string{"S", "X"}), HasEnums: true, Enums: []EnumDecl{{Name: toBS("X"), Vals: nil}},
 			Data: []ColData{{Name: toBS("S"), Kind: "string", Strs: vals}, {Name: toBS("X"), Kind: "string", Strs: vals}}})
-		pat := g.oneOf([]string{"a.c", "%A[bx]C%", "A.C%", "%b.", "a.1", ".*bc", "(abc|ABC)"}) + g.oneOf([]string{"", "", "%"})
+		pat := g.oneOf([]string{"a.c", "%A[bx]C%", "A.C%", "%b.", "a.1", ".*bc", "(abc|ABC)", "s", "i", "ɐb", "%ɐb", "abc", "ABC"}) + g.oneOf([]string{"", "", "%"})
 		seq := [][]string{{"like", "ilike", "like"}, {"ilike", "like", "ilike"}}[rep%2]
 		for _, c := range seq {
 			for _, col := range []string{"S", "X"} {
